@@ -79,7 +79,14 @@ package server
 //@   assert-at call strings.(*Builder).WriteString : arg0 == &sb && arg1 == t.Message.Content
 //@   assert-at call strings.(*Builder).String : arg0 == &sb
 //@   assert-at call strings.(*Builder).Reset : false     -- nothing received is ever taken back
+// ... and what is stored as the response's text is the value read from the builder (Content #2), or the
+// empty string when the whole text parsed as tool calls (Content #3)
+//@   ghost-at after call strings.(*Builder).String #1 : ghost_agg := result
+//@   assert-at store Content #2 : stored == ghost_agg
+//@   assert-at store Content #3 : len(stored) == 0
 //@ func (*Server).GenerateHandler
 //@   assert-at call strings.(*Builder).WriteString : arg0 == &sb && arg1 == t.Response
 //@   assert-at call strings.(*Builder).String : arg0 == &sb
 //@   assert-at call strings.(*Builder).Reset : false
+//@   ghost-at after call strings.(*Builder).String #1 : ghost_agg := result
+//@   assert-at store Response #2 : stored == ghost_agg
